@@ -73,6 +73,7 @@ int main(int argc, char** argv) {
   int exhaustive = (int)opt_long("exhaustive", 0);
   for (uint64_t s = g_args.seed0; s < g_args.seed0 + g_args.n; s++) {
     begin_case(s);
+    ND_CASE_GUARD();
     Rng r(s);
     mg::GenOpts go;
     std::string mdesc;
